@@ -147,7 +147,7 @@ func (g *Gen) basePrelude() {
 	r := g.reg
 	r.add("(define-sort F64 () (_ FloatingPoint 11 53))", "F64")
 	r.add("(define-sort F32 () (_ FloatingPoint 8 24))", "F32")
-	r.add("(declare-sort Str 0)", "Str")
+	r.add("(define-sort Str () Int) ; strings are opaque identifiers; 0 is the empty string, literals are 1, 2, ...", "Str")
 	r.add("(declare-sort Ref 0)", "Ref")
 	r.add("(declare-const nil!ref Ref)", "nil!ref")
 	r.add("(declare-datatypes ((Slice 0)) (((mk!slice (s!ref Ref) (s!off (_ BitVec 64)) (s!len (_ BitVec 64)) (s!cap (_ BitVec 64))))))",
@@ -160,7 +160,7 @@ func (g *Gen) basePrelude() {
 	r.add("(declare-fun str!sub (Str (_ BitVec 64) (_ BitVec 64)) Str)", "str!sub")
 	r.add("(declare-fun str!cat (Str Str) Str)", "str!cat")
 	r.add("(declare-fun str!cmp (Str Str) Int)", "str!cmp")
-	r.add("(declare-const str!empty Str)", "str!empty")
+	r.add("(define-fun str!empty () Str 0)", "str!empty")
 	r.add("(define-fun ok!str ((s Str)) Bool (and (bvsle #x0000000000000000 (str!len s)) (bvsle (str!len s) #x0000010000000000)))", "ok!str")
 	r.addAxiom("(assert (= (str!len str!empty) #x0000000000000000))", "str!empty")
 }
@@ -174,7 +174,7 @@ func (g *Gen) strLit(s string) string {
 	}
 	name := fmt.Sprintf("lit!%d", len(g.strLits))
 	g.strLits[s] = name
-	g.reg.add(fmt.Sprintf("(declare-const %s Str) ; %q", name, s), name)
+	g.reg.add(fmt.Sprintf("(define-fun %s () Str %d) ; %q", name, len(g.strLits), s), name)
 	// length and bytes (bytes only for short literals)
 	facts := []string{eq(app("str!len", name), bvLit(int64(len(s)), 64))}
 	if len(s) <= 8 {
@@ -183,14 +183,6 @@ func (g *Gen) strLit(s string) string {
 		}
 	}
 	g.reg.addAxiom("(assert "+and(facts...)+")", name)
-	// literals are pairwise distinct
-	for o, on := range g.strLits {
-		if on != name {
-			_ = o
-			g.reg.addAxiom("(assert (not (= "+name+" "+on+")))", name, on)
-		}
-	}
-	g.reg.addAxiom("(assert (not (= "+name+" str!empty)))", name, "str!empty")
 	return name
 }
 
@@ -303,7 +295,7 @@ func (g *Gen) zero(t types.Type) string {
 	case s == sF32:
 		return "(_ +zero 8 24)"
 	case s == sStr:
-		return "str!empty"
+		return "0"
 	case s == sRef:
 		return "nil!ref"
 	case s == sSlice:
@@ -393,6 +385,14 @@ func (g *Gen) collectAnyTypes() {
 		fn := g.funcs[name]
 		for _, b := range fn.Blocks {
 			for _, ins := range b.Instrs {
+				if v, ok := ins.(ssa.Value); ok {
+					if _, isT := v.Type().(*types.Tuple); !isT {
+						g.sortOf(v.Type()) // registers struct sorts so that the prelude may mention them
+						if sl, ok := v.Type().Underlying().(*types.Slice); ok {
+							g.sortOf(sl.Elem())
+						}
+					}
+				}
 				switch ins := ins.(type) {
 				case *ssa.MakeInterface:
 					g.noteAnyType(ins.X.Type())
